@@ -100,11 +100,19 @@ class _FragGen:
             return ["n", "LogicalOr", [["t", [self.cond(d + 1), self.cond(d + 1)]]]]
         return ["n", "LogicalNot", [self.cond(d + 1)]]
 
+    weird_prefixes = False
+    subclasses = False
+
     def wrap(self, t):
         r = self.r
         px = r.choice([["none"], ["none"], ["s", "u"], ["s", "u"], ["s", "v"], ["s", "u_2"],
                        ["s", "0"], ["s", "tmp"]])
-        return ["n", "CommonSubexpression", [t, px, ["s", "pymbolic_eval"]]]
+        if self.weird_prefixes and r.random() < 0.5:
+            # prefixes that are not identifiers: such a lineage is held to the name-table
+            # invariants only, its program is not compiled
+            px = ["s", r.choice(["g.x", "g_x", "g-x", "a b", "a_b"])]
+        sc = r.choice(["pymbolic_eval", "pymbolic_eval", "pymbolic_expr", "pymbolic_global"])
+        return ["n", "CommonSubexpression", [t, px, ["s", sc]]]
 
     def expr(self, d=0):
         r = self.r
@@ -127,6 +135,8 @@ class _FragGen:
         e = self.expr
         if o == "sum":
             return ["n", "Sum", [["t", [e(d + 1) for _ in range(r.randint(2, 3))]]]]
+        if o == "prod" and self.subclasses and r.random() < 0.25:
+            return ["n", "SubProd", [["t", [e(d + 1) for _ in range(r.randint(2, 3))]]]]
         if o == "prod":
             fs = [e(d + 1) for _ in range(r.randint(2, 3))]
             if r.random() < 0.15:
@@ -187,9 +197,11 @@ class _FragGen:
         if o == "fdiv":
             return ["n", "FloorDiv", [e(d + 1), self.divisor(d + 1)]]
         if o == "rem":
-            return ["n", "Remainder", [e(d + 1), self.divisor(d + 1)]]
+            return ["n", "SubRem" if self.subclasses and r.random() < 0.4 else "Remainder",
+                    [e(d + 1), self.divisor(d + 1)]]
         if o == "quot":
-            return ["n", "Quotient", [e(d + 1), e(d + 1)]]
+            return ["n", "SubQuot" if self.subclasses and r.random() < 0.4 else "Quotient",
+                    [e(d + 1), e(d + 1)]]
         if o in ("min", "max"):
             return ["n", "Min" if o == "min" else "Max", [["t", [e(d + 1), e(d + 1)]]]]
         if o == "cmp":
@@ -254,6 +266,8 @@ def generate(seed, tier):
     fault_run = r.random() < 0.2
     pool = []
     g = _FragGen(r, kind, pool, r.choice([2, 3, 3, 4]))
+    g.weird_prefixes = r.random() < 0.06
+    g.subclasses = r.random() < 0.3
     ops = []
     npool = r.randint(2, 6)
     for k in range(npool):
@@ -511,9 +525,20 @@ def execute(scenario, open_sigs):
     class SplitStr(CSESplittingStringifyMapperMixin, StringifyMapper):
         pass
 
+    # user subclasses of stock nodes that inherit their parents' mapper methods
+    class SubRem(p.Remainder):
+        pass
+
+    class SubQuot(p.Quotient):
+        pass
+
+    class SubProd(p.Product):
+        pass
+
     cfg = scenario["config"]
     kind = cfg["kind"]
-    B = spec.Builder({"Unsupp": Unsupp})
+    B = spec.Builder({"Unsupp": Unsupp, "SubRem": SubRem, "SubQuot": SubQuot,
+                      "SubProd": SubProd})
     env = {k: B.build(v) for k, v in cfg["env"].items()}
     fenv = dict(env)
     fenv.update({"sin": math.sin, "cos": math.cos, "exp": math.exp, "fabs": abs})
@@ -612,7 +637,10 @@ def execute(scenario, open_sigs):
             if pre is None:
                 return [t for t in toks if t in names or t.startswith("CSE")]
             return [t for t in toks if t.startswith(pre) or t in mapped_names]
+        tokenizable = all(_IDENT.fullmatch(n) for n in names)
         for i, (n, t) in enumerate(entries):
+            if not tokenizable:
+                break        # names that are not identifiers cannot be told apart in text
             if not isinstance(t, str):
                 continue     # a pair supplied through copy_with_mapped_cses
             for tok in cse_idents(t):
@@ -621,7 +649,7 @@ def execute(scenario, open_sigs):
                          {"op": opi, "mapper": m.desc["m"], "in": f"{n} = {t}", "uses": tok,
                           "list": [(a, str(b)) for a, b in entries][:12]})
                     return
-        if text is not None:
+        if text is not None and tokenizable:
             for tok in cse_idents(text):
                 if tok not in names and tok not in mapped_names:
                     viol("C14/use-before-assignment",
@@ -830,6 +858,10 @@ def _build_post(ms, kind, env, fenv, Ref, p, probes):
     total_assign = 0
     for mid, m in sorted(ms.items()):
         if m.desc["kind"] == "mixin" or not m.emitted:
+            continue
+        if any(not re.fullmatch(r"[A-Za-z_][A-Za-z0-9_]*", n) for n, _ in m.obj.cse_name_list):
+            probes["functions_left_out_non_identifier_names"] = probes.get(
+                "functions_left_out_non_identifier_names", 0) + 1
             continue
         if m.conflated:
             # typed twins share an assignment here (known finding): types and values of this
